@@ -42,3 +42,21 @@ package propagation
 //@   ensures sc.IsValid() ==> !(carrier.Get("traceparent")[0] == 'f' && carrier.Get("traceparent")[1] == 'f')
 //@   assert@call NewSpanContext#1 : version == 16 * hexv(carrier.Get("traceparent")[0]) + hexv(carrier.Get("traceparent")[1]) && version <= 254 && (version == 0 ==> h == "" && opts[0] <= 2)
 //@   ensures sc.IsValid() ==> sc.remote && sc.traceFlags <= 1
+
+// ======================================================================== C03 Inject
+// nothing is written for an invalid span context; otherwise the tracestate header is written exactly when the tracestate is
+// non-empty (with its String()), and the traceparent header is always written, built from version "00", the trace ID (16 bytes),
+// the span ID (8 bytes) and ONE flag byte that keeps only the sampled bit, each preceded by '-' and hex-encoded
+//@ ghost var injTS int
+//@ func (tc TraceContext) Inject(ctx context.Context, carrier TextMapCarrier)
+//@   overflow assumed
+//@   unchecked frame,no-panic the carrier is third-party code; strings.Builder and encoding/hex
+//@   requires carrier != nil
+//@   assert@call Set#1 : sc.IsValid() && $arg1 == "tracestate" && $arg2 == ts && ts != ""
+//@   ghost@entry : injTS = 0
+//@   ghost@call Set#1 : injTS = 1
+//@   loop#1 invariant ts != "" ==> injTS == 1
+//@   assert@call Set#2 : sc.IsValid() && $arg1 == "traceparent" && int(flags) == int(sc.traceFlags) % 2 && (ts != "" ==> injTS == 1)
+//@   assert@call WriteString#1 : $arg1 == versionPart
+//@   assert@call WriteByte#* : $arg1 == '-'
+//@   assert@call Encode#* : $arg1 === src && ($k == 0 ==> len(src) == 16) && ($k == 1 ==> len(src) == 8) && ($k == 2 ==> len(src) == 1)
